@@ -102,11 +102,16 @@ fn split_coverage(coverage: &rlayout::CoverageTable, start: u16, end: u16) -> Ta
         }
         rlayout::CoverageTable::Format2(table) => {
             // we will stay in format2, but it's possible it is no longer best?
-            let records = table
-                .range_records()
-                .iter()
-                .filter_map(|record| split_range_record(record, start, end - 1))
-                .collect::<Vec<_>>();
+            let records = if start == end {
+                // an empty range covers nothing (and has no inclusive end)
+                Vec::new()
+            } else {
+                table
+                    .range_records()
+                    .iter()
+                    .filter_map(|record| split_range_record(record, start, end - 1))
+                    .collect::<Vec<_>>()
+            };
             data.write(2u16);
             data.write(records.len() as u16);
             for record in records {
@@ -238,6 +243,18 @@ mod tests {
 
         // fully after
         assert!(split_range_record(&record, 30, 35).is_none());
+    }
+
+    #[test]
+    fn split_coverage_empty_range() {
+        use read_fonts::{FontData, FontRead};
+        // format 2: one range of three glyphs
+        let bytes = [0u8, 2, 0, 1, 0, 10, 0, 12, 0, 0];
+        let coverage = rlayout::CoverageTable::read(FontData::new(&bytes)).unwrap();
+        for at in [0u16, 1, 3] {
+            let split = split_coverage(&coverage, at, at);
+            assert_eq!(split.bytes, [0u8, 2, 0, 0], "empty range at {at}");
+        }
     }
 
     #[test]
